@@ -441,7 +441,9 @@ impl UdpTarget {
                 if let Ok((n, from)) = s.recv_from(&mut buf) {
                     g2.lock().unwrap().push((from, buf[..n].to_vec()));
                     if echo {
-                        due.push_back((Instant::now() + Duration::from_millis(delay_ms as u64), from, reply_for(tag, &buf[..n])));
+                        // a request that starts with this marker is answered with an empty datagram
+                        let r = if buf[..n].starts_with(b"EMPTYREPLY") { vec![] } else { reply_for(tag, &buf[..n]) };
+                        due.push_back((Instant::now() + Duration::from_millis(delay_ms as u64), from, r));
                     }
                 }
                 while due.front().map(|(t, _, _)| *t <= Instant::now()).unwrap_or(false) {
